@@ -37,6 +37,22 @@ def write_generated(ctx, n, label, opts=None, salt=0):
     return files
 
 
+def write_zoo(ctx, n, label="zoo", salt=0):
+    """object-zoo programs (vlib/zoo.py): natives' Trace implementations under partial consumption"""
+    import random
+    from . import zoo
+    d = os.path.join(common.VERIF, "work", "%s_%s_%s" % (ctx.prop.lower(), label, ctx.tier))
+    os.makedirs(d, exist_ok=True)
+    rng = random.Random(ctx.seed * 6007 + salt * 31 + 5)
+    files = []
+    for k in range(n):
+        f = os.path.join(d, "z%d.lay" % k)
+        with open(f, "w") as fh:
+            fh.write(zoo.zoo_program(rng))
+        files.append(f)
+    return files
+
+
 def compare_modes(ctx, label, files, modes, base_mode="", steps=400000, what="collection schedule"):
     """Run every file under base_mode and each of `modes`; outcomes must be identical.
     Returns False after reporting the first difference."""
